@@ -263,6 +263,74 @@ def run(ctx: Ctx):
             c.clear()
     ctx.count("grids_built_cached", ncached)
 
+    # ---------------- the public constructor by SIZE (incl. size=0 and the default degree left in place), and by both
+    def least(t_keys, x):
+        c = [k for k in t_keys if k >= x]
+        return min(c) if c and x >= 0 else None
+    nsz = 0
+    for meth, P, _, _ in METHODS:
+        tn = tabs[f"{P}_NPOINTS"]
+        ks = sorted(k for k in tn if k <= (1500 if ctx.quick else 6000))
+        reqs = {0, 1, 2} | {k for k in ks[:12]} | {k - 1 for k in ks[:12]} | {k + 1 for k in ks[:11]} | set(ctx.rng.sample(range(0, ks[-1]), 6))
+        for sreq in sorted(reqs):
+            k = least(sorted(tn), sreq)
+            if k is None or k > ks[-1]:
+                continue
+            exp = (tn[k], k, k)
+            for kw in (dict(size=sreq), dict(degree=None, size=sreq), dict(degree=7, size=sreq)):
+                with warnings.catch_warnings():
+                    warnings.simplefilter("ignore")
+                    try:
+                        g = AngularGrid(method=meth, cache=False, **kw)
+                        obs = (int(g.degree), int(g.size), len(g.points))
+                    except Exception as e:  # noqa: BLE001
+                        obs = ("crash", type(e).__name__, str(e)[:60])
+                nsz += 1
+                ctx.case(("built-size", meth, sreq, tuple(kw)))
+                if obs != exp:
+                    ctx.fail("corr_built_size", f"built-size:{meth}:{kw}", str(obs),
+                             f"AngularGrid({', '.join(f'{a}={b}' for a, b in kw.items())}, method='{meth}') has (degree,size,npoints)={obs}; "
+                             f"the smallest supported size not below {sreq} is {k} (degree {tn[k]})",
+                             {"reproduce": f"AngularGrid(method='{meth}', cache=False, **{kw})"})
+    ctx.count("grids_built_by_size", nsz)
+
+    # ---------------- atomic grids: every shell gets the smallest supported degree of the REQUESTED method not below the request
+    from grid.atomgrid import AtomGrid
+    from grid.basegrid import OneDGrid
+    rg = OneDGrid(np.array([0.25, 0.5, 1.0, 2.0, 4.0, 8.0]), np.ones(6), (0, np.inf))
+    nat = 0
+    for meth, P, _, _ in METHODS:
+        td, tn = tabs[f"{P}_DEGREES"], tabs[f"{P}_NPOINTS"]
+        dmax = max(td)
+        for trial in range(3 if ctx.quick else 12):
+            hi = dmax if trial == 0 else min(dmax, 40)
+            dreq = [ctx.rng.randint(0, 30) for _ in range(5)] + [ctx.rng.randint(max(0, hi - 8), hi) if trial == 0 and td[least(sorted(td), hi)] <= 20000 else ctx.rng.randint(0, 30)]
+            sreq = [ctx.rng.randint(0, 300) for _ in range(6)]
+            d_sec = [dreq[0], dreq[2], dreq[5], dreq[1]]
+            s_sec = [sreq[0], sreq[2], sreq[4], sreq[1]]
+            r_sec = [0.3, 1.5, 5.0]
+            jobs = [("AtomGrid(degrees=...)", lambda: AtomGrid(rg, degrees=list(dreq), method=meth), [least(sorted(td), d) for d in dreq]),
+                    ("AtomGrid(sizes=...)", lambda: AtomGrid(rg, sizes=list(sreq), method=meth), [tn[least(sorted(tn), s_)] for s_ in sreq]),
+                    ("from_pruned(d_sectors=...)", lambda: AtomGrid.from_pruned(rg, 1.0, r_sectors=r_sec, d_sectors=d_sec, method=meth),
+                     [least(sorted(td), d_sec[sum(1 for b in r_sec if r > b)]) for r in rg.points]),
+                    ("from_pruned(s_sectors=...)", lambda: AtomGrid.from_pruned(rg, 1.0, r_sectors=r_sec, s_sectors=s_sec, method=meth),
+                     [tn[least(sorted(tn), s_sec[sum(1 for b in r_sec if r > b)])] for r in rg.points])]
+            for what, build, exp in jobs:
+                with warnings.catch_warnings():
+                    warnings.simplefilter("ignore")
+                    try:
+                        obs = [int(v) for v in build().degrees]
+                    except Exception as e:  # noqa: BLE001
+                        obs = ["crash", type(e).__name__, str(e)[:60]]
+                nat += 1
+                ctx.case(("atom-degrees", meth, what, trial))
+                if obs != exp:
+                    ctx.fail("corr_atom_degrees", f"atom-degrees:{meth}:{what}:{dreq}:{sreq}", str(obs),
+                             f"{what} with method='{meth}', requests degrees={dreq} sizes={sreq} d_sectors={d_sec} s_sectors={s_sec} r_sectors={r_sec}: "
+                             f"shell degrees {obs}, the smallest supported degrees not below the requests are {exp}",
+                             {"reproduce": f"rg=OneDGrid([.25,.5,1,2,4,8], ones(6), (0,inf)); {what} as described, method='{meth}'"})
+    ctx.count("atomic_grids_built", nat)
+
     # ---------------- convert_angular_sizes_to_degrees vs model (random sequences, incl. duplicates)
     cases, meta = [], []
     ctor = {m: c for m, _, c, _ in METHODS}
